@@ -95,6 +95,8 @@ TableOK == IsDag => WellFormedT(tbl)
 InternerOK == IsDag => InternedOK(It)
 \* the explicit interner over the table = the library's value-level definition (shared by C07 / C08 / C10)
 AgreesWithLib == IsDag => VBytesT(tbl, Root) = InternedVBytes(X)
+HashFormAgrees == IsDag => VBytesH(tbl, Root) = VBytesT(tbl, Root)
+ValueLawsAgree == IsDag => (ValueLaws(X, VB(X)) <=> (ClosedForm(X) /\ BelowTreeWeight(X) /\ SerBounds(X)))
 \* (a) only the value counts: the unshared re-allocation of the same tree, in either order, and the
 \*     table with the wrapper appended (as a table / as a value) give the same sizes
 ValueOnly == IsDag => /\ \A rf \in BOOLEAN : LET u == AllocTree(<<>>, X, rf) IN VBytesT(u.t, u.n) = VBytesT(tbl, Root)
